@@ -149,8 +149,8 @@ func (g *valueGen) unsupportedLeaf() genValue {
 	return genValue{goVal: uintptr(7), unsupported: true}
 }
 
-var fieldNames = []string{"Title", "Count", "Items", "Meta", "Flag", "Ratio", "Next", "URL", "Xy", "A"}
-var mapKeys = []string{"a", "b", "name", "Name", "title", "Title", "x y", "", "é", "in", "nil", "k1", "loop", "0"}
+var fieldNames = []string{"Title", "Count", "Items", "Meta", "Flag", "Ratio", "Next", "URL", "Xy", "A", "In", "Nil", "True", "FALSE", "Loop"}
+var mapKeys = []string{"a", "b", "name", "Name", "title", "Title", "x y", "", "é", "in", "nil", "k1", "loop", "0", "In", "IN", "Nil", "NIL", "True", "False"}
 
 func (g *valueGen) value(depth int) genValue {
 	r := g.r
@@ -524,7 +524,34 @@ func init() {
 						}
 					}
 				}}
-			return []core.Section{reuse, {Name: "generated-values", N: n,
+			// two struct types of one name (declared in two functions), and one property read in a loop whose
+			// elements spell it in different cases
+			sameName := core.Section{Name: "same-named-types-and-mixed-spellings", Exhaustive: true, N: 6,
+				Run: func(c *core.Ctx, i int) {
+					type tc struct {
+						src  string
+						data map[string]any
+						want string
+					}
+					a, b := c12LocalRowA(), c12LocalRowB()
+					cases := []tc{
+						{"{{ r.name }}/{{ r.age }}|{{ s.name }}/{{ s.age }}/{{ s.city }}", map[string]any{"r": a, "s": b}, "Ann/30|Bob/41/Ulm"},
+						{"{{ s.city }}/{{ s.name }}|{{ r.age }}/{{ r.name }}", map[string]any{"s": b, "r": a}, "Ulm/Bob|30/Ann"},
+						{"@each(x in xs){{ x.name }},@end", map[string]any{"xs": []any{a, b, a}}, "Ann,Bob,Ann,"},
+						{"@each(u in users){{ u.name }};@end", map[string]any{"users": []any{c12User{Name: "Ann"}, map[string]any{"name": "bob"}, map[string]any{"Name": "Cy"}, map[string]any{"name": "dee", "Name": "DEE"}}}, "Ann;bob;Cy;dee;"},
+						{"@for(k = 0; k < rows.len(); k++){{ rows[k].qty }},@end", map[string]any{"rows": []map[string]int{{"Qty": 1}, {"qty": 2}, {"Qty": 3, "qty": 4}}}, "1,2,4,"},
+						{"@each(u in users){{ u[\"name\"] }}{{ u.name.len() }};@end", map[string]any{"users": []any{map[string]any{"Name": "Cy"}, map[string]any{"name": "bob"}}}, "Cy2;bob3;"},
+					}
+					t := cases[i]
+					c.Input(map[string]any{"source": t.src})
+					// in both orders of first use within the process: the first case of a worker decides
+					got := evalString(c, t.src, t.data)
+					c.Nontrivial(t.src)
+					if !got.Panicked && (got.Err != nil || got.Out != t.want) {
+						c.Violation("same-name-or-mixed-spelling", fmt.Sprintf("%s gave %s, want %q", t.src, got.Describe(), t.want), map[string]any{"source": t.src})
+					}
+				}}
+			return []core.Section{reuse, sameName, {Name: "generated-values", N: n,
 				Run: func(c *core.Ctx, i int) {
 					depth := 1 + i%4
 					// the same seed builds the value twice: one is rendered, one is the reference copy
@@ -668,4 +695,22 @@ func pathKind(p string) string {
 		return "dot"
 	}
 	return "index"
+}
+
+// two different struct types that share package and name
+func c12LocalRowA() any {
+	type row struct {
+		Name string
+		Age  int
+	}
+	return row{Name: "Ann", Age: 30}
+}
+
+func c12LocalRowB() any {
+	type row struct {
+		Age  int
+		City string
+		Name string
+	}
+	return &row{Name: "Bob", Age: 41, City: "Ulm"}
 }
